@@ -315,17 +315,17 @@ def r4(R4, cfg, F):
     muts = [c for c in b.calls() if c.callee and c.callee.recv_kind() == '&mut self' and 'String' in c.callee.best]
     ok = len(ct) == 1 and bool(muts)
     if ok:
-        sw = [bb for bb, t in b.terms() if t['k'] == 'switch' and b.access_path(t['discr']) == ['call@bb%d' % ct[0].bb]]
-        ok = len(sw) == 1
-        if ok:
-            false_t = [d for d, lab in b.edges(sw[0]) if lab == 'sw:0']
-            ok = bool(false_t) and all(m.bb not in b.reachable([0], removed_edges=[(sw[0], false_t[0])]) for m in muts)
-            true_t = [d for d, lab in b.edges(sw[0]) if lab != 'sw:0']
-            nones = [s for bbx in b.reachable(true_t) for s in b.blocks[bbx]['stmts'] if s['k'] == 'assign' and s['place']['l'] == 0 and s['rv']['k'] == 'aggregate' and s['rv'].get('variant_name') == 'None']
-            ok = ok and bool(nones)
+        # every mutation of the buffer runs only when contains('.') returned false ...
+        ok = all(any(c is ct[0] and truth is False for c, truth in common.call_truth_guards(b, m.bb)) for m in muts)
+        # ... and a segment with a dot makes the function return None
+        nones = [bb for bb, _, s in b.assigns() if s['place']['l'] == 0 and s['rv']['k'] == 'aggregate' and s['rv'].get('variant_name') == 'None'
+                 and any(c is ct[0] and truth is True for c, truth in common.call_truth_guards(b, bb))]
+        somes = [bb for bb, _, s in b.assigns() if s['place']['l'] == 0 and s['rv']['k'] == 'aggregate' and s['rv'].get('variant_name') == 'Some'
+                 and not any(c is ct[0] and truth is False for c, truth in common.call_truth_guards(b, bb))]
+        ok = ok and bool(nones) and not somes
         # and what is appended is the segment itself
         ps = [m for m in muts if m.callee.name == 'push_str']
-        ok = ok and len(ps) == 1 and b.origins(ps[0].args[1]) == {('arg', 2)}
+        ok = ok and len(ps) == 1 and (b.origins(ps[0].args[1]) == {('arg', 2)} or common.strip_refs(common.deep_path(b, ps[0].args[1])) == ['arg2'])
     R4.check(ok, cfg, b.path, 'dot-check-dominates-mutation', 'IdBuilder::push must return None for a segment containing "." before touching the buffer (ids are split on "." to build paths, so such a segment would alias another entry)', b.loc())
 
 
